@@ -165,6 +165,8 @@ class StepOracle(object):
             self.fail('childless-parent-accepted', idx, '%s answered %s' % (op, ans))
         elif want is None and ans not in ('ok', 'err IllegalChild', 'err IllegalText'):
             self.fail('unexpected-exception', idx, '%s answered %s' % (op, ans))
+        if self.failed is not None:
+            return True
         if ans == 'ok':
             if k in ('append', 'insb', 'adde') and ref.parent_of(op[2]) is not None:
                 self.moves += 1
@@ -185,16 +187,20 @@ class StepOracle(object):
 
 # ---------------------------------------------------------------------------------------------
 # generators
-def prologue(rng, attached, n_elem=5, n_text=2, n_cdata=1):
+def prologue(rng, attached, n_elem=5, n_text=3, n_cdata=1, same_text=False):
     ops = []
     for i in range(n_elem):
         if attached and i == 0:
             ops.append(['new', 'e', 0, '@doctext'])
         else:
             ops.append(['new', 'e', i, rng.choice(ELEMS) if rng else ['Section', 'P', 'Span', 'P', 'Span'][i % 5]])
-    # every other text node (and, in random histories, sometimes the CDATA node) holds the empty string
+    # text nodes with EQUAL content (all non-empty ones hold the same string), one or two of them empty
+    if same_text:
+        datas = [None] * n_text
+    else:
+        datas = [u'', None, None] if (rng is None or rng.random() < 0.5) else [u'', u'', None]
     for j in range(n_text):
-        ops.append(['new', 't', n_elem + j, u'' if j % 2 == 0 else None])
+        ops.append(['new', 't', n_elem + j, datas[j % len(datas)]])
     for j in range(n_cdata):
         ops.append(['new', 'c', n_elem + n_text + j, u'' if (rng and rng.random() < 0.5) else None])
     return ops
@@ -205,7 +211,7 @@ def random_sequence(rng, attached, maxlen):
     ref = ListRef()
     for op in ops:
         ref.apply(op)
-    nxt = 8
+    nxt = len(ops)
     n = rng.randint(1, maxlen)
     elems = [i for i in ref.kind if ref.kind[i] == 'e']
     out = list(ops)
@@ -343,12 +349,12 @@ def report(chk, attached, ops, orc):
 
 
 # ---------------------------------------------------------------------------------------------
-def exhaustive(chk, drv, attached, n_elem, n_text, max_depth, max_states):
+def exhaustive(chk, drv, attached, n_elem, n_text, max_depth, max_states, same_text=False):
     """every op of the alphabet applied in every distinct state reachable within max_depth steps
     (= all op sequences of length <= max_depth+1 over the universe, up to equality of the complete
     pointer state).  Returns (#states, #ops applied, closed?)."""
-    pro = prologue(None, attached, n_elem=n_elem, n_text=n_text, n_cdata=0)
-    if n_text >= 2:
+    pro = prologue(None, attached, n_elem=n_elem, n_text=n_text, n_cdata=0, same_text=same_text)
+    if n_text >= 2 and not same_text:
         pro[-1] = ['new', 'c', pro[-1][2], None]       # one (empty) Text and one CDATASection
     ids = list(range(n_elem + n_text))
     alphabet = []
@@ -414,7 +420,7 @@ def exhaustive(chk, drv, attached, n_elem, n_text, max_depth, max_states):
 
 def run(chk, replay=None):
     chk.rule = ('random edit sequences (append / insertBefore / removeChild / addElement / addText / addCDATA, <= 40 ops, '
-                '5 elements + 2 text + 1 CDATA node (empty-string text nodes among them), attached to a document or free-standing; ~1/3 of the references / '
+                '5 elements + 3 text + 1 CDATA node (text nodes of equal content, empty-string ones among them), attached to a document or free-standing; ~1/3 of the references / '
                 'removals name non-children; insertion of a node into its own descendant excluded) plus every op in every '
                 'distinct pointer state reachable over a small universe; non-trivial = sequence that moves an already '
                 'attached node or contains a raising call')
@@ -431,6 +437,9 @@ def run(chk, replay=None):
     plans = [(False, 2, 2, 5, 4000), (True, 2, 2, 5, 4000)]
     if thorough:
         plans += [(False, 3, 2, 4, 1500), (True, 3, 1, 4, 1500)]
+    # the same small universe with two Text nodes of IDENTICAL content (removing / moving the second of two equal siblings)
+    ns, na, closed = exhaustive(chk, drv, False, 2, 2, 5 if thorough else 3, 4000, same_text=True)
+    chk.notes.append('exhaustive free universe 2 elements + 2 equal text nodes: %d states, %d (state, op) pairs' % (ns, na))
     for attached, ne, nt, depth, cap in plans:
         ns, na, closed = exhaustive(chk, drv, attached, ne, nt, depth, cap)
         chk.notes.append('exhaustive %s universe %d elements + %d text: %d distinct states, %d (state, op) pairs, depth<=%d%s'
